@@ -384,3 +384,19 @@ def tasks(tier):
 def kani(tier):
     if tier != 'thorough': return []
     return [dict(harness='withdraw_window', oid='C12.k', covers=2, stubs=5, desc='SECOND ENGINE (Kani/CBMC on the compiled code): update_withdrawn_equity == an independent reference of the rolling 24h window, for all u32 counters / limits, all i64 timestamps, all values below 2^32 dollars', functions=['marginfi::state::marginfi_group::MarginfiGroupImpl::update_withdrawn_equity'], bounds='loop-free; value < 2^32 (whole part u32, any 48-bit fraction)')]
+
+
+
+# ---------------------------------------------------------------- shared with C08.g: the program entry points forward each argument to the handler parameter of the same name
+def t_entry_wiring_shared(world):
+    import specs.C08 as C08
+    obs = C08.t_entry_wiring(world)
+    for o in obs:
+        o.oid = 'C12.h'
+        for c in o.cex: c['ob'] = 'C12.h'
+    return obs
+
+
+_t_ews = tasks
+def tasks(tier):
+    return _t_ews(tier) + [('entry_wiring', t_entry_wiring_shared)]
